@@ -48,6 +48,8 @@ def verify(sd):
                 demo_cmd = "go test -count=1 -run '%s' ./%s/" % (m.group(1), pkg)
             if "-race" in meta.get("demo_run", ""):
                 demo_cmd = demo_cmd.replace("go test", "go test -race")
+            if "-tags verif" in meta.get("demo_run", ""):
+                demo_cmd = demo_cmd.replace("go test", "go test -tags verif")
         else:
             dd = os.path.join(sd, "demo")
             tmpd = os.path.join(wt, "_demo")
@@ -83,7 +85,7 @@ def verify(sd):
                 break
         res["suite_passes"] = ok
         if not ok:
-            print(outt[-3000:])
+            print("\n".join(l for l in outt.splitlines() if "FAIL" in l or "panic" in l or "Error" in l)[:3000])
         if not res["demo_fails_with"]:
             print("demo with change:", out1[-1500:])
         if not res["demo_passes_without"]:
